@@ -153,6 +153,14 @@ _add("C16", H("H16_lockset", common={"vectors": True, "race": True}, quick={"wal
 # the full field set with one document per input (exhaustive, about 90 s): thorough tier only
 _add("C06", H("H06_merge", quick={"skip": True}, thorough={"wall": "1500s", "shards": 16, "param": "maxDocs=1,tieReopen=0"}))
 
+# sizes of consecutive batches chosen independently (grow / fits paths of the builder's backing arrays)
+_add("C10", H("H10_grow", quick={"wall": "150s", "shards": 16}, thorough={"wall": "1500s", "shards": 16, "param": "maxLocs=7"}))
+# the doc-values option differing between the occurrences of one field name
+_add("C03", H("H03_dv", quick={"wall": "140s", "shards": 8, "param": "maxDocs=1,maxSeq=1,lite=1,dvSym=1,secondSeg=0"}, thorough={"wall": "1500s", "shards": 16, "param": "maxDocs=2,maxSeq=1,lite=1,dvSym=1,secondSeg=0"}))
+# three inputs, each with its own field list (prefix-related lists, equal lists around a different one)
+_add("C05", H("H05_merge", quick={"wall": "150s", "shards": 16, "param": "maxDocs=1,tieReopen=1,maxOcc=1,nInputs=3,fieldVar=1,always=1,storeAll=1,symTyp=0,fixAP=1"}, thorough={"skip": True}))
+_add("C02", H("H05_merge", quick={"wall": "150s", "shards": 16, "param": "maxDocs=1,tieReopen=1,maxOcc=1,nInputs=3,fieldVar=1,always=1,storeAll=1,symTyp=0,fixAP=1,noDrops=1"}, thorough={"skip": True}))
+
 # thorough wall budgets: the first budgeted run of a property gets 600 s, the others 240 s (a thorough check
 # also repeats the quick configurations, which are exhaustive inside their bounds)
 for _pid in PLAN:
